@@ -217,6 +217,9 @@ def cases(draw, kind, precision, tdtypes, big=False):
     elif big:
         runs = runs[:6] + [[r[0], 16] for r in runs[:3]]
     ddt = draw(st.sampled_from([d for d in gen.CLASS_DTYPES if int(lab.max()) <= np.iinfo(d).max]))
+    if np.dtype(ddt).kind == 'i' and und:
+        for _ in range(3):
+            lab[int(g.integers(n)), int(g.integers(W))] = -int(g.choice([1, 2, 5, 100]))       # negative foreign values
     case = {'kind': 'kernels', 'dist': kind, 'precision': precision, 'partitions': parts, 'traces': tr, 'data': lab.astype(ddt), 'cuts': cuts, 'runs': runs}
     if kind == 'mia':
         lo_e = float(np.floor(float(tr.min())))
